@@ -114,9 +114,11 @@ def launch_flows(chk, fl, ex, futures, binp, wd, rng, thorough):
     for pr in sorted(by_pair):
         fs = by_pair[pr]
         rng.shuffle(fs)
-        sw = [f for f in fs if has_switch(f)]
+        # switch BEFORE TxSQLExec / TxSQLQuery, for read-write and read-only transactions; then switch before Commit; then the rest
+        pre = {m: [f for f in fs if switch_before_exec(f) and f["hist"][1]["a"] == m] for m in ("rw", "ro")}
+        sw = [f for f in fs if has_switch(f) and not switch_before_exec(f)]
         ot = [f for f in fs if not has_switch(f)]
-        chosen += sw[:per_switch] + ot[:per_other]
+        chosen += pre["rw"][:per_switch // 2] + pre["ro"][:per_switch // 2] + sw[:per_other] + ot[:per_other]
     rng.shuffle(sims)
     chosen += sims[:(2000 if thorough else 40)]
     if thorough and len(chosen) > 3600:
@@ -124,7 +126,8 @@ def launch_flows(chk, fl, ex, futures, binp, wd, rng, thorough):
         rest = [f for f in chosen if not has_switch(f)]
         chosen = keep[:2400] + rest[:1200]
     chk.cov["flows"] = {"phased": len(phased), "simulated_distinct": len(sims), "replayed": len(chosen),
-                        "replayed_with_switch_inside_tx": sum(1 for f in chosen if has_switch(f)), "pairs": sorted(by_pair)}
+                        "replayed_with_switch_inside_tx": sum(1 for f in chosen if has_switch(f)),
+                        "replayed_with_switch_between_newtx_and_txexec": sum(1 for f in chosen if switch_before_exec(f)), "pairs": sorted(by_pair)}
     nproc = 4 if thorough else 2
     for i in range(nproc):
         d = os.path.join(wd, "srv_flow%d" % i)
@@ -142,6 +145,19 @@ def has_switch(f):
         if e["op"] == "newtx":
             seen_newtx = True
         elif e["op"] == "use" and seen_newtx:
+            return True
+    return False
+
+
+def switch_before_exec(f):
+    """... and a TxSQLExec / TxSQLQuery after the switch"""
+    seen_newtx = seen_use = False
+    for e in f["hist"]:
+        if e["op"] == "newtx":
+            seen_newtx = True
+        elif e["op"] == "use" and seen_newtx:
+            seen_use = True
+        elif e["op"] == "txexec" and seen_use:
             return True
     return False
 
